@@ -4,6 +4,7 @@ package m3
 
 import (
 	"math"
+	"strconv"
 	"time"
 
 	tally "github.com/uber-go/tally/v4"
@@ -342,4 +343,58 @@ func VerifC13TimestampSchedule() {
 	}
 	verifrt.Assert("c13.timestamp.delivered-once", found == 1)
 	verifrt.Reach("c13-timestamp-schedule")
+}
+
+// VerifC13LongAllocationHistory: a handle keeps its tags however many other tag sets the
+// reporter sees afterwards.  One counter is allocated first; then N gauges with N distinct tag
+// sets, N = 2^4, 2^10, 2^13+2 (twice the size of the reporter's pools; concrete history, hashes of concrete strings computed by
+// the real function); then the first handle reports a symbolic value, which must arrive with its
+// own tags.  The history is concrete - the engine has no symbolic-length collections.
+func VerifC13LongAllocationHistory() {
+	verifrt.ConcreteHashes()
+	n := []int{1 << 4, 1 << 10, 1<<13 + 2}[verifrt.Choose("allocations", 3)]
+	r, addr := vLight(Binary, 8, 1440, false)
+	// the tag-slice pool of the size the real constructor uses (whatever a change does with
+	// recycled slices then behaves as in production, and does so natively for every map order)
+	tp := tally.NewObjectPool(DefaultMaxQueueSize)
+	tp.Init(func() interface{} { return make([]m3thrift.MetricTag, 0, batchPoolSize) })
+	r.resourcePool.metricTagSlicePool = tp
+	first := r.AllocateCounter("first", map[string]string{"id": "first", "zone": "a"})
+	for i := 0; i < n; i++ {
+		r.AllocateGauge("g", map[string]string{"id": "second-" + strconv.Itoa(i)})
+	}
+	later := r.AllocateCounter("later", map[string]string{"id": "later"})
+	v := verifrt.Int64("count")
+	first.ReportCount(v)
+	later.ReportCount(1)
+	verifrt.Assert("c13.long-history.close-ok", r.Close() == nil)
+	found := 0
+	for _, b := range vDecode(addr, Binary) {
+		for i := range b.batch.Metrics {
+			m := &b.batch.Metrics[i]
+			switch m.Name {
+			case "first":
+				found++
+				ok := len(m.Tags) == 2
+				if ok {
+					id, zone := "", ""
+					for _, t := range m.Tags {
+						if t.Name == "id" {
+							id = t.Value
+						}
+						if t.Name == "zone" {
+							zone = t.Value
+						}
+					}
+					ok = id == "first" && zone == "a"
+				}
+				verifrt.Assert("c13.long-history.early-handle-keeps-its-tags", ok)
+				verifrt.Assert("c13.long-history.value-intact", m.Value.Count == v)
+			case "later":
+				verifrt.Assert("c13.long-history.late-handle-has-its-tags", len(m.Tags) == 1 && m.Tags[0].Name == "id" && m.Tags[0].Value == "later")
+			}
+		}
+	}
+	verifrt.Assert("c13.long-history.delivered-once", found == 1)
+	verifrt.Reach("c13-long-history")
 }
